@@ -38,7 +38,15 @@ var pfTypes = []pfType{
 	{"[]Item", TShape{K: "slice", Args: []TShape{{K: "named", Path: "{o}", Name: "Item"}}}, "slice"},
 	{"map[Kind]*Item", TShape{K: "map", Args: []TShape{{K: "named", Path: "{o}", Name: "Kind"}, {K: "ptr", Args: []TShape{{K: "named", Path: "{o}", Name: "Item"}}}}}, "map"},
 	{"[2]int", TShape{K: "array", N: 2, Args: []TShape{{K: "basic", Name: "int"}}}, "array"},
+	// exported aliases declared in the origin's package: of a type the partial's package could name itself, of an
+	// unexported type and of a type of an internal package (neither of which it may name), and of a predeclared type
+	{"ItemAlias", TShape{K: "named", Path: "{o}", Name: "ItemAlias"}, "alias"},
+	{"Settings", TShape{K: "named", Path: "{o}", Name: "Settings"}, "alias"},
+	{"Conf", TShape{K: "named", Path: "{o}", Name: "Conf"}, "alias"},
+	{"Text", TShape{K: "named", Path: "{o}", Name: "Text"}, "alias"},
 }
+
+const partialConf = "package conf\n\ntype Conf struct {\n\tN int\n\tL []string\n}\n"
 
 var pfTags = []string{"", `json:"a"`, `json:"a.b"`, `doc:"v1.2" json:"x,omitempty"`, `validate:"@int[0,10]"`, `k:"x y z"`, `name:"é %v @x"`, `path:"a/b.c"`}
 
@@ -68,7 +76,7 @@ type partialRes struct {
 
 func (c *partialCase) originSrc(pkg string) string {
 	var b strings.Builder
-	fmt.Fprintf(&b, "package %s\n\nimport (\n\t\"time\"\n\n\t\"%s/lib\"\n)\n\nvar _ time.Duration\nvar _ lib.Thing\n\ntype Item struct {\n\tA int\n\tB []string\n}\n\ntype Kind string\n\ntype Doer interface{ Do() }\n\n", pkg, genMod)
+	fmt.Fprintf(&b, "package %s\n\nimport (\n\t\"time\"\n\n\t\"%s/lib\"\n\t\"%s/%s/internal/conf\"\n)\n\nvar _ time.Duration\nvar _ lib.Thing\n\ntype Item struct {\n\tA int\n\tB []string\n}\n\ntype Kind string\n\ntype Doer interface{ Do() }\n\ntype settings struct {\n\tN int\n\tM map[string]int\n}\n\ntype (\n\tItemAlias = Item\n\tSettings  = settings\n\tConf      = conf.Conf\n\tText      = string\n)\n\n", pkg, genMod, genMod, pkg)
 	b.WriteString("type T struct {\n")
 	for _, f := range c.Fields {
 		if f.Doc != "" {
@@ -302,6 +310,7 @@ func partialJob(cases []*partialCase) *genJob {
 	for i, c := range cases {
 		pkg, origin := fmt.Sprintf("p%d", i), fmt.Sprintf("o%d", i)
 		job.Files[origin+"/o.go"] = c.originSrc(origin)
+		job.Files[origin+"/internal/conf/conf.go"] = partialConf
 		job.Files[pkg+"/p.go"] = c.partialSrc(pkg, origin)
 		job.Entry = append(job.Entry, "./"+pkg)
 		if c.Kind == "" {
@@ -348,7 +357,9 @@ func (c *partialCase) observe() string {
 		return "unparseable"
 	}
 	src := []byte(c.res.gen)
-	str := func(n ast.Node) string { return string(src[fset.Position(n.Pos()).Offset:fset.Position(n.End()).Offset]) }
+	str := func(n ast.Node) string {
+		return string(src[fset.Position(n.Pos()).Offset:fset.Position(n.End()).Offset])
+	}
 	imports := map[string]string{}
 	for _, is := range f.Imports {
 		if is.Name != nil {
@@ -656,7 +667,7 @@ func init() {
 			Name: "origins", Quick: 500, Thorough: 4000, New: func() Case { return &partialCase{} },
 			Gen:      func(r *Rng, i int) Case { return genPartial(r) },
 			BatchRun: partialBatch, ShrinkBudget: 25, MaxShrinks: 6,
-			Rule: "origin structs in a second package with 1–6 fields over a menu of 18 types (scalars, slices, maps, arrays, pointers, named types of the origin's package, of another module package and of time, error, any, a defined interface) and 8 tags (dots, commas, brackets, non-ASCII, %v, @x), every combination of omit tags and sometimes a replace tag (a third of them naming a field that is also omitted); `type x origin.T` generated with the real generator (100 per Execute), compiled, and a probe reflecting over the generated struct vs the origin (names, order, types, tags) and running DeepCopyAs on a value whose containers are allocated but empty, on a filled value and on nil; compared with the model: field list as name / printed type / tag",
+			Rule: "origin structs in a second package with 1–6 fields over a menu of 22 types (scalars, slices, maps, arrays, pointers, named types of the origin's package, of another module package and of time, error, any, a defined interface, exported aliases of the origin's package for a struct of that package, for an unexported struct, for a struct of an internal package and for string) and 8 tags (dots, commas, brackets, non-ASCII, %v, @x), every combination of omit tags and sometimes a replace tag (a third of them naming a field that is also omitted); `type x origin.T` generated with the real generator (100 per Execute), compiled, and a probe reflecting over the generated struct vs the origin (names, order, types, tags) and running DeepCopyAs on a value whose containers are allocated but empty, on a filled value and on nil; compared with the model: field list as name / printed type / tag",
 		},
 		{
 			Name: "rejections", New: func() Case { return &partialCase{} },
